@@ -34,7 +34,7 @@ op = st.fixed_dictionaries({'op': st.sampled_from(['claim', 'claim', 'release', 
                             'react': st.sampled_from([False, False, True])})
 history = st.fixed_dictionaries({'clients': st.integers(1, 4),
                                  'naming': st.sampled_from(['K', 'K', 'prefix-desc', 'prefix-asc',
-                                                            'reverse']),
+                                                            'reverse', 'padded']),
                                  'policy': st.sampled_from(['honest', 'honest', 'arbitrary']),
                                  'ops': st.lists(op, min_size=1, max_size=40)})
 
